@@ -41,14 +41,14 @@ def from_array_family(res, tier):
         for a in M.all_arrays(sh, range(3)):
             for emb in embs:
                 ea = numpy.array(emb[:3], dtype=numpy.int64)[a]
+                # ONE tally per array, handed to every call below (an application tallies once and builds several indexes from it)
+                shared_counts = {}
+                for v in ea.flat:
+                    shared_counts[int(v)] = shared_counts.get(int(v), 0) + 1
                 for mk in c01.MAPPINGS:
                     mapping = c01.make_mapping(mk, emb)
                     for uc in (False, True):
-                        counts = None
-                        if uc:
-                            counts = {}
-                            for v in ea.flat:
-                                counts[int(v)] = counts.get(int(v), 0) + 1
+                        counts = shared_counts if uc else None
                         n += 1
                         try:
                             idx = iindex.from_array(ea, counts=counts, mapping=dict(mapping) if mapping else None)
@@ -135,6 +135,8 @@ def equality_family(res, tier):
 
 
 def scale_family(res, tier):
+    import itertools
+
     """C15a at scale: arrays of 65 536 x k + r cells whose most frequent value is decided by the LAST cells (blockwise or sampled counting must not
     miss the tail), 1-D and 2-D, with and without a mapping / exact counts."""
     import numpy
@@ -172,6 +174,27 @@ def scale_family(res, tier):
                         if not hist.most_frequent_ok(arr.astype(numpy.int64), idx.common):
                             viol.append({"property": "C15", "site": "from_array:common-not-most-frequent", "op": {"op": "from_array-scale", "size": size, "shape": list(shape), "dtype": numpy.dtype(dt).name, "mapping": mk, "counts": uc},
                                          "detail": "from_array chose common %r for an array of %d cells in which 0 is the strict winner" % (idx.common, size), "state": hist.key_from_dense(numpy.zeros((0,), dtype=numpy.int64), 0), "depth": 0})
+    # five or more distinct values (the second construction strategy), ONE tally handed to two successive calls
+    from . import c01
+
+    for cfg in c01.rowscan_configs(tier):
+        if int(numpy.prod(cfg["shape"])) > 200:
+            continue
+        e7 = c01.ROWSCAN_EMBS[0]
+        for a, cells, vals in itertools.islice(c01.rowscan_arrays(tuple(cfg["shape"]), cfg["k"], e7, cfg["dup"]), 0, None, 3):
+            tally = {}
+            for v in a.flat:
+                tally[int(v)] = tally.get(int(v), 0) + 1
+            ident = {v: v for v in e7}
+            for step, mapping in (("first", None), ("second", None), ("third", ident)):
+                n += 1
+                try:
+                    idx = iindex.from_array(a, counts=tally, mapping=dict(mapping) if mapping else None)
+                except Exception:  # noqa
+                    continue
+                if not hist.most_frequent_ok(a, idx.common):
+                    viol.append({"property": "C15", "site": "from_array:common-not-most-frequent", "op": {"op": "from_array-scale", "rowscan": cfg["shape"], "cells": list(cells), "values": [int(v) for v in vals], "call": step},
+                                 "detail": "the %s from_array over one shared tally chose common %r; the array holds %d x %r" % (step, idx.common, int((a == e7[0]).sum()), e7[0]), "state": hist.key_from_dense(numpy.zeros((0,), dtype=numpy.int64), 0), "depth": 0})
     return viol, {"from_array_scale_cases": n}
 
 
